@@ -42,8 +42,8 @@ LEVEL = {'text': 'Machine-checked theorems over unbounded inputs (Props/C09.v, n
                  'tables), the DynamicSection view of the foreign form, num_tags()/get_tag(n) for n below the count (the same reads as the iterator), the '
                  'segment-of-the-original view of symbols, and the nearest-pointer heuristic used without hash tables (outside '
                  'the property: it cannot give the true count in general).  '
-                 'The hand model is pinned to dynamic.py/hash.py/elffile.py by differential runs on synthesized images in three '
-                 'forms and on the seed libraries stripped by the harness.',
+                 'The hand model is pinned to dynamic.py/hash.py/elffile.py by differential runs on synthesized images in four '
+                 'forms (.dynamic at the segment offset, a copy elsewhere, a foreign array elsewhere, headers stripped) and on the seed libraries stripped by the harness.',
          'design_ref': '4.9', 'technique': 'Coq proof (induction, generic layout round trip, finite sweeps over the generated '
                                             'enum dicts) + extracted-model correspondence',
          'note': 'Trusted: Coq kernel, ExtrOcamlBasic extraction, harness, gABI reading in Spec/C09Dyn.v. No axioms. '
